@@ -144,7 +144,10 @@ class Runner:
             args = [rootarg]
             for f in op["F"]:
                 args += ["-h", f]
-            for s in op["S"]:
+            targets = sorted((tuple(x) for x in op["S"]), key=lambda t: (not os.path.isdir(w.cpath(t)), t))
+            if self.spec["world"].get("sfrev"):
+                targets.reverse()
+            for s in targets:
                 args += ["-sf", w.cpath(tuple(s))]
             if op.get("dup"):   # the same files named again, directly and through their folders
                 for s in op["S"]:
@@ -156,6 +159,7 @@ class Runner:
             args = [rootarg]
             for p in op.get("P", []):
                 args += ["-i", concrete_pattern(w, p)]
+            args += self.pattern_file_args(op)
             return C.verify, args, cwd
         if k == "verifysf":
             return C.verify, [rootarg, "-sf", w.cpath(tuple(op["S"]))], cwd
@@ -169,6 +173,7 @@ class Runner:
                 args += ["-h", op["h"]]
             for p in op.get("P", []):
                 args += ["-i", concrete_pattern(w, p)]
+            args += self.pattern_file_args(op)
             return C.verify, args, cwd
         if k == "verifypl":
             return C.verify, [rootarg, "-pl", self.flat_manifest or "/nonexistent"], cwd
@@ -176,8 +181,11 @@ class Runner:
             args = [rootarg]
             for p in op.get("P", []):
                 args += ["-i", concrete_pattern(w, p)]
+            args += self.pattern_file_args(op)
             return C.diff, args, cwd
         if k == "flatten":
+            if self.spec["world"].get("flatrel"):     # relative destination, resolved against a cwd that is not the source root
+                return C.flatten, [w.cpath(tuple(op["R"])), os.path.basename(w.flat_dest)], w.base
             return C.flatten, [rootarg, w.flat_dest], cwd
         if k == "info":
             return C.info, [rootarg], cwd
@@ -188,7 +196,22 @@ class Runner:
             return C.info, args, cwd
         if k == "hash":
             return C.hash, [w.cpath(tuple(op["S"])), "-h", op["h"]], cwd
+        if k == "xsdcheck":
+            folder = os.path.join(w.cpath(tuple(op["R"])), "ascmhl")
+            names = sorted(n for n in os.listdir(folder) if n.endswith(".mhl")) if os.path.isdir(folder) else []
+            target = os.path.join(folder, names[-1]) if names else folder
+            return C.xsd_schema_check, [target, "-xsd", os.path.join(W.REPO, "xsd", "ASCMHL.xsd")], cwd
         raise ValueError(k)
+
+    def pattern_file_args(self, op):
+        w = self.w
+        if not op.get("PF"):
+            return []
+        self.patfiles += 1
+        pf = os.path.join(w.base, "patterns-%d.txt" % self.patfiles)
+        with open(pf, "w") as fh:
+            fh.write("".join(concrete_pattern(w, p) + "\n" for p in op["PF"]))
+        return ["-ii", pf]
 
     # -- output parsing ------------------------------------------------------------------
     def named(self, text, R):
